@@ -36,6 +36,10 @@ fn main() {
             let Some(prop) = args.get(1).and_then(|id| props::lookup(id)) else { usage() };
             driver::eval_main(prop, &args[2..]);
         }
+        "history" => {
+            let Some(prop) = args.get(1).and_then(|id| props::lookup(id)) else { usage() };
+            driver::history_main(prop, &args[2..]);
+        }
         "crosscheck" => {
             let Some(prop) = args.get(1).and_then(|id| props::lookup(id)) else { usage() };
             let tier = Tier::parse(args.get(2).map(|s| s.as_str()).unwrap_or("quick"));
